@@ -296,8 +296,11 @@ type Peer struct {
 	rx cipher.Stream // only the reading goroutine
 	r  io.Reader
 
-	wmu    sync.Mutex
-	tx     cipher.Stream
+	wmu sync.Mutex // serialises writers: key stream order = wire order
+	tx  cipher.Stream
+	// lmu guards the transmit log only, so that TxLog / TxBytes never wait behind a writer that is
+	// blocked in Conn.Write (a peer that stopped reading)
+	lmu    sync.Mutex
 	txOff  int64
 	txLog  []Span
 	txRaw  []byte
@@ -335,11 +338,13 @@ func (p *Peer) Send(nonce [32]byte, payload []byte) error {
 	p.wmu.Lock()
 	defer p.wmu.Unlock()
 	p.tx.XORKeyStream(b, b)
+	p.lmu.Lock()
 	if p.keepTx {
 		p.txLog = append(p.txLog, Span{p.txOff, p.txOff + int64(len(b))})
 		p.txRaw = append(p.txRaw, b...)
 	}
 	p.txOff += int64(len(b))
+	p.lmu.Unlock()
 	_, err := p.Conn.Write(b)
 	return err
 }
@@ -352,11 +357,13 @@ func (p *Peer) SendBatch(nonces [][32]byte, payloads [][]byte) error {
 	for i := range payloads {
 		b := EncodeFrame(nonces[i], payloads[i])
 		p.tx.XORKeyStream(b, b)
+		p.lmu.Lock()
 		if p.keepTx {
 			p.txLog = append(p.txLog, Span{p.txOff, p.txOff + int64(len(b))})
 			p.txRaw = append(p.txRaw, b...)
 		}
 		p.txOff += int64(len(b))
+		p.lmu.Unlock()
 		all = append(all, b...)
 	}
 	_, err := p.Conn.Write(all)
@@ -366,16 +373,16 @@ func (p *Peer) SendBatch(nonces [][32]byte, payloads [][]byte) error {
 // TxLog returns the spans of the frames sent so far (index 0 is the
 // handshake confirmation) and the total number of bytes written.
 func (p *Peer) TxLog() ([]Span, int64) {
-	p.wmu.Lock()
-	defer p.wmu.Unlock()
+	p.lmu.Lock()
+	defer p.lmu.Unlock()
 	return append([]Span(nil), p.txLog...), p.txOff
 }
 
 // TxBytes returns a copy of every byte written so far (only when the peer
 // was created with logTx).
 func (p *Peer) TxBytes() []byte {
-	p.wmu.Lock()
-	defer p.wmu.Unlock()
+	p.lmu.Lock()
+	defer p.lmu.Unlock()
 	return append([]byte(nil), p.txRaw...)
 }
 
